@@ -75,6 +75,9 @@ def run(F, res, tier):
     _c14u.text_positions_are_counted_in_bytes(F, res, rule="A11", crates=('syntax', 'ide', 'glas'))   # engine U: every reported range is made of byte offsets of its document
     # ---- A1
     n = 0
+    present = {(p_, FL.short(callee(t_) or callee_def(t_) or "")) for p_, f_ in F.fns.items() if in_ide(p_) and f_.blocks for _b, t_ in f_.calls()
+               if CTOR.search(callee(t_) or callee_def(t_) or "") or (callee(t_) or callee_def(t_) or "") in HELPERS}
+    moved_used = set()
     for p, f in sorted(F.fns.items()):
         if not in_ide(p) or not f.blocks:
             continue
@@ -85,6 +88,19 @@ def run(F, res, tier):
                 sc = FL.short(c)
                 key = (p, sc)
                 reason = ALLOWED.get(key)
+                if reason is None:
+                    # code motion: a reviewed site whose function no longer holds it, and this site sits in a helper (or a closure of a
+                    # helper) that the reviewed function's root calls - one reviewed entry vouches for one moved site
+                    root = re.sub(r"(::\{closure#\d+\})+$", "", p)
+                    for (p0, sc0), why0 in sorted(ALLOWED.items()):
+                        if sc0 != sc or (p0, sc0) in present or (p0, sc0) in moved_used:
+                            continue
+                        root0 = re.sub(r"(::\{closure#\d+\})+$", "", p0)
+                        callers = {re.sub(r"(::\{closure#\d+\})+$", "", f_.path) for f_, _b, _t in F.callers_of(lambda cc, root=root: cc == root)}
+                        if root0 == root or root0 in callers:
+                            reason = why0 + " (the site moved from %s)" % FL.short(p0)
+                            moved_used.add((p0, sc0))
+                            break
                 ordn = [bb for bb, tt in f.calls() if (callee(tt) or callee_def(tt)) == c].index(b)
                 res.ob("A1", "ctor/%s/%s/%d" % (p, sc, ordn), "this range is not reported for a document, or is in bounds by construction",
                        reason is not None, where=f.loc(t["ln"]), how=("reviewed: " + reason) if reason else
